@@ -2,6 +2,21 @@
    input AND what the implementation was observed to do; [check_case] compares with the model
    (current tree = Fixed everywhere) and evaluates the spec oracle on the observation. *)
 From Kit Require Export C03.Model C03.Spec Lib.CheckLib.
+From Coq Require Import Uint63.
+
+(* Packed byte strings of the case files: a byte string of [n] bytes is written as groups of
+   primitive 63-bit integers holding seven bytes each, most significant first (the last one
+   padded with zero bytes on the right).  Only a matter of how the harness prints long inputs:
+   a list of [N] literals costs the parser about 100 us per byte, this form about 7 us. *)
+Definition unpack7 (w : int) : list N :=
+  [N_of_int8 (w >> 48); N_of_int8 (w >> 40); N_of_int8 (w >> 32); N_of_int8 (w >> 24);
+   N_of_int8 (w >> 16); N_of_int8 (w >> 8); N_of_int8 w]%uint63.
+Definition pk (n : Z) (groups : list (list int)) : list N :=
+  firstn (Z.to_nat n) (flat_map unpack7 (concat groups)).
+
+Example pk_example :
+  pk 9 [[0x01020304050607; 0x08ff0000000000]%uint63] = [1; 2; 3; 4; 5; 6; 7; 8; 255]%N.
+Proof. vm_compute. reflexivity. Qed.
 
 Inductive case :=
 (* EncryptSymmetric ([generic] = through Encrypt of crypto.go) *)
